@@ -365,8 +365,8 @@ def run(v, O):
             pass
     return out
 '''
-NUM_CASES = ['-2*m', '-2.5e-3*km', 'kg/(-4*s)', '-1*[c]2', '-2*-3*m', '1e3*g', '-0.5*cm2', '2.5*m/(4*s2)', '-3*J/(2*-6*mol)', '1e-3*kg*m2/s2', '0.5*[k_B]*K', '-1e2*%']
-NUM_BAD = ['-m', '2**m', '--2*m', '2*', '*m']
+NUM_CASES = ['1e+3*m', 'km/(1e+2*s)', '6.02214076e+23*mol-1', '2.5e-3*km', '-2*m', '-2.5e-3*km', 'kg/(-4*s)', '-1*[c]2', '-2*-3*m', '1e3*g', '-0.5*cm2', '2.5*m/(4*s2)', '-3*J/(2*-6*mol)', '1e-3*kg*m2/s2', '0.5*[k_B]*K', '-1e2*%']
+NUM_BAD = ['k m', 'm s-2', 'da g', 'kg*m s/K', 'k\tm2', 'M eV', '-m', '2**m', '--2*m', '2*', '*m']
 
 
 def run_task(task):
